@@ -13,7 +13,7 @@
 #define VERIF_CTLS 1
 #elif defined( SPACE_CONV )
 #define VERIF_K 4
-#define VERIF_GROUPS ( T::G_CORE | T::G_CONV | T::G_CONV3 | T::G_REP | T::G_HOLE | T::G_REMATCH )
+#define VERIF_GROUPS ( T::G_CORE | T::G_CONV | T::G_CONV3 | T::G_REP | T::G_HOLE | T::G_REMATCH | T::G_ATOM2 )
 #define VERIF_FAMS ( 1 | 2 )
 #define VERIF_CTLS 1
 #elif defined( SPACE_EXC )
@@ -235,6 +235,18 @@ struct Space
          phases.push_back( p );
       }
       {
+         // rematch / minus re-run the matched text as an input of its own: its end is the end of the match, not a line end
+         Phase p;
+         p.name = "rematch_minus_with_line_ends";
+         p.root = { "MINUS", "REMATCH", "REMATCH3" };
+         p.inner = { "ANY", "ONE_A", "EOF_", "EOLF", "EOL", "PLUS", "STAR", "SEQ" };
+         p.N = 3;
+         p.L = 3;
+         p.sigma = "a\n";
+         p.cfgs = cfg_product( { 0 }, { 0 }, { 1 }, { 1, 0 } );
+         phases.push_back( p );
+      }
+      {
          Phase p;
          p.name = "convenience_closed";
          p.root = { CONV_OPS, CONV_OPS3, REP_OPS };
@@ -253,6 +265,21 @@ struct Space
          p.name = "must_family_over_throwing_holes";
          p.root = { MUST_OPS, EXC_OPS, CORE_OPS };
          p.inner = { "HOLE", MUST_OPS, EXC_OPS };
+         p.N = 3;
+         p.L = 2;
+         p.Lmin = 2;
+         p.sigma = "x";
+         p.need_hole = true;
+         p.hole_may_throw = true;
+         p.cfgs = cfg_product( { 0 }, { EXC_CTL }, { 1 }, { 1, 0 } );
+         phases.push_back( p );
+      }
+      {
+         // exceptions that start inside a rule with the plain match( in ) signature (a terminal): unwind for the terminal too
+         Phase p;
+         p.name = "terminal_holes_throwing";
+         p.root = { MUST_OPS, EXC_OPS, CORE_OPS };
+         p.inner = { "THOLE", "SEQ", "TC_ANY_RF", "MUST" };
          p.N = 3;
          p.L = 2;
          p.Lmin = 2;
@@ -343,6 +370,7 @@ struct Space
       result_prop = "C12";
       exc_prop = "C12";
       check_actions = false;
+      check_hooks = true;  // the user control under parse_tree (fixed-arity unwind) still sees a balanced protocol for selected rules
       {
          Phase p;
          p.name = "parse_tree_closed";
@@ -356,6 +384,16 @@ struct Space
          p.dev_bound = thorough ? 2 : 1;
          p.cfgs = cfg_product( { 0, 1, 5 }, { 0 }, { 1 }, { 0 } );
          phases.push_back( p );
+#if TREE_SEL == 0
+         {
+            Phase e = p;
+            e.name = "parse_tree_closed_must_if_plain_control";
+            e.act_may_throw = false;
+            e.act_may_veto = false;
+            e.cfgs = cfg_product( { 0 }, { 6 }, { 1 }, { 0 } );
+            phases.push_back( e );
+         }
+#endif
          Phase q;
          q.name = "parse_tree_open";
          q.root = { CORE_OPS, "TC_RF", "TC_ANY_RF" };
